@@ -86,6 +86,7 @@ type trzszTransfer struct {
 	writer           io.Writer
 	stopped          atomic.Bool
 	stopAndDelete    atomic.Bool
+	stopMutex        sync.Mutex
 	pausing          atomic.Bool
 	pauseIdx         atomic.Uint32
 	pauseBeginTime   atomic.Int64
@@ -289,10 +290,15 @@ func (t *trzszTransfer) addReceivedData(buf []byte, tunnel bool) {
 }
 
 func (t *trzszTransfer) stopTransferringFiles(stopAndDelete bool) {
-	if !t.stopped.CompareAndSwap(false, true) {
+	// the first request wins, and its kind is published before the stop itself becomes visible
+	t.stopMutex.Lock()
+	if t.stopped.Load() {
+		t.stopMutex.Unlock()
 		return
 	}
 	t.stopAndDelete.Store(stopAndDelete)
+	t.stopped.Store(true)
+	t.stopMutex.Unlock()
 	t.buffer.stopBuffer()
 
 	if !t.tunnelConnected {
@@ -328,10 +334,10 @@ func (t *trzszTransfer) resumeTransferringFiles() {
 }
 
 func (t *trzszTransfer) checkStop() error {
-	if t.stopAndDelete.Load() {
-		return errStoppedAndDeleted
-	}
 	if t.stopped.Load() {
+		if t.stopAndDelete.Load() {
+			return errStoppedAndDeleted
+		}
 		return errStopped
 	}
 	return nil
